@@ -29,7 +29,7 @@ PROBES = {'C17': 6}
 MIN_EVAL = {'quick': 3000, 'thorough': 60000}
 REQUIRED_COUNTERS = ['with_reifiable', 'inverted_reifiable', 'aligned_reifiable', 'kind:plain', 'wide_graphs',
                      'kind:referenced', 'kind:top', 'kind:extra']
-MODELS_R = ['amr', 'amr', 'mini', 'amr', 'rand1', 'rand2', 'rand3', 'rand5', 'default', 'rand10']
+MODELS_R = ['amr', 'amr', 'mini', 'amr', 'rand1', 'rand2', 'rand3', 'rand5', 'default', 'rand10', 'altconcept']
 AMR_ROLES = [':ARG0', ':ARG1', ':ARG2', ':mod', ':domain', ':op1', ':op2', ':polarity', ':quant',
              ':name', ':consist-of', ':time', ':location', ':poss', ':beneficiary', ':role',
              ':employed-by', ':accompanier', ':age', ':cause', ':subset', ':superset', ':degree',
